@@ -94,6 +94,13 @@ def r02_2(ctx):
                   "equals the textbook formula", facts={"canonical": repr(y1)})
     if n < 2:
         raise AnalysisError("fewer than two derivative-based Milstein scenarios (Ito and Stratonovich) found")
+    gdg_wiring(ctx, "R02.2")
+    ctx.floor("R02.2", 6)
+
+
+def gdg_wiring(ctx, rule):
+    """ForwardSDE.g_prod_and_gdg_prod_* return (g v1, vjp(g, y, g (.) v2)) for each noise type."""
+    rep = ctx.rep
     # wiring of GDG in ForwardSDE
     model = ctx.model
     fwd = model.cls(BASE_SDE, "ForwardSDE")
@@ -105,7 +112,7 @@ def r02_2(ctx):
             slot = it.getattr(obj, "g_prod_and_gdg_prod")
             out = it.call(slot, [t, y, v1, v2], {})
         except SimRaise as e:
-            rep.fail("R02.2", fwd.module.relpath, f"{fwd.key}::R02.2::gdg-wiring::{nt}",
+            rep.fail(rule, fwd.module.relpath, f"{fwd.key}::{rule}::gdg-wiring::{nt}",
                      f"g_prod_and_gdg_prod for {nt} noise raises {e.exc_name}")
             continue
         fi = slot.fi if hasattr(slot, "fi") else None
@@ -122,10 +129,9 @@ def r02_2(ctx):
             ref2 = nf.linear("VJP", (G.key(), y.key()), expect_weight(G))
             ok = nf.equal(first, ref1) and nf.equal(second, ref2)
             msg = f"{nt}: got ({first}, {second}), expected ({ref1}, {ref2})"
-        rep.check(ok, "R02.2", astq.loc(fi) if fi else fwd.module.relpath,
-                  f"{fwd.key}::R02.2::gdg-wiring::{nt}", "Milstein correction mis-wired -- " + msg,
+        rep.check(ok, rule, astq.loc(fi) if fi else fwd.module.relpath,
+                  f"{fwd.key}::{rule}::gdg-wiring::{nt}", "Milstein correction mis-wired -- " + msg,
                   "returns (g v1, vjp(g, y, g (.) v2))")
-    ctx.floor("R02.2", 6)
 
 
 class FwdHooks(solverkit.StepHooks):
